@@ -638,7 +638,13 @@ impl Terminal for UnixTerminal {
     }
 
     fn frames_drop(&mut self) {
-        self.write_queue.clear_but_last()
+        self.write_queue.clear_but_last();
+        // NOTE: when size is determined with escape sequences, the size request issued on
+        //       SIGWINCH might have been dropped together with pending frames, request it again
+        //       otherwise resize event will never be generated
+        if self.size.is_some() {
+            self.write_all(GET_TERM_SIZE).unwrap_or(());
+        }
     }
 
     fn dyn_ref(&mut self) -> &mut dyn Terminal {
